@@ -86,7 +86,7 @@ public:
       bufferEnd = bufferStart;
       return;
     }
-    Memory::copy(buffer, data, size);
+    Memory::move(buffer, data, size); // data may lie in this buffer
     bufferStart = buffer;
     bufferEnd = buffer + size;
     *bufferEnd = 0;
